@@ -27,10 +27,11 @@ type State struct {
 	defers   map[int][]deferred // frame id -> defer stack
 	open     map[loopKey]*openLoop
 	trace    []string
-	panicVal Val        // non-nil while panicking (during deferred calls)
-	dirty    []dirtyRec // heap class prefixes havocked selectively, with the epoch of the havoc
-	fdepth   int        // number of forks taken on this path
-	choices  string     // branch choices taken so far ("0"/"1" per fork)
+	panicVal Val            // non-nil while panicking (during deferred calls)
+	calls    map[string]int // number of calls made so far on this path, by source-level callee name
+	dirty    []dirtyRec     // heap class prefixes havocked selectively, with the epoch of the havoc
+	fdepth   int            // number of forks taken on this path
+	choices  string         // branch choices taken so far ("0"/"1" per fork)
 }
 
 type dirtyRec struct {
@@ -74,6 +75,10 @@ func (s *State) clone() *State {
 	}
 	n.trace = append([]string(nil), s.trace...)
 	n.dirty = append([]dirtyRec(nil), s.dirty...)
+	n.calls = make(map[string]int, len(s.calls))
+	for k, v := range s.calls {
+		n.calls[k] = v
+	}
 	return n
 }
 
@@ -96,10 +101,17 @@ func (fr *Frame) cellByName(name string, pos token.Pos) *Cell {
 	if fr.fn.Pkg != nil && pos.IsValid() {
 		if sc := fr.fn.Pkg.Pkg.Scope().Innermost(pos); sc != nil {
 			if _, obj := sc.LookupParent(name, pos); obj != nil {
+				var cand *Cell
 				for a, c := range fr.cells {
 					if a.Comment == name && a.Pos() == obj.Pos() {
-						return c
+						if types.Identical(a.Type().(*types.Pointer).Elem(), obj.Type()) {
+							return c
+						}
+						cand = c
 					}
+				}
+				if cand != nil {
+					return cand
 				}
 			}
 		}
@@ -308,7 +320,7 @@ func (x *Exec) heapArr(st *State, class, sort string) string {
 	}
 	ep := st.epoch
 	for _, d := range st.dirty {
-		if strings.HasPrefix(class, d.prefix) && d.epoch > ep {
+		if classMatch(class, d.prefix) && d.epoch > ep {
 			ep = d.epoch
 		}
 	}
@@ -335,12 +347,20 @@ func (x *Exec) havocClasses(st *State, prefixes []string) {
 	x.epochCtr++
 	for _, p := range prefixes {
 		for c := range st.heap {
-			if strings.HasPrefix(c, p) {
+			if classMatch(c, p) {
 				delete(st.heap, c)
 			}
 		}
 		st.dirty = append(st.dirty, dirtyRec{p, x.epochCtr})
 	}
+}
+
+// classMatch: pattern is a prefix, or "~substr".
+func classMatch(class, pat string) bool {
+	if strings.HasPrefix(pat, "~") {
+		return strings.Contains(class, pat[1:])
+	}
+	return strings.HasPrefix(class, pat)
 }
 
 func (x *Exec) newRef(st *State) string {
@@ -727,10 +747,16 @@ func (x *Exec) loopEnv(st *State, fr *Frame, lp *loop) *Env {
 	if fr.parent == nil {
 		env.old = x.entryEnv
 	}
-	// "#i": hidden range index
-	for a, c := range fr.cells {
-		if a.Comment == "rangeindex" && lp.blocks[a.Block()] == false {
-			_ = c
+	// "rangeindex": the hidden index of THIS range loop (the one stored in the loop head)
+	for _, in := range lp.head.Instrs {
+		if s, ok := in.(*ssa.Store); ok {
+			if a, ok := s.Addr.(*ssa.Alloc); ok && a.Comment == "rangeindex" {
+				if c := fr.cells[a]; c != nil {
+					if v, ok := st.cellv[c]; ok {
+						env.vars["rangeindex"] = v
+					}
+				}
+			}
 		}
 	}
 	return env
@@ -771,7 +797,14 @@ func (x *Exec) loopArrive(st *State, fr *Frame, lp *loop, head *ssa.BasicBlock, 
 	// havoc what the loop modifies
 	for _, a := range lp.modAllocs {
 		if c := fr.cells[a]; c != nil {
-			st.cellv[c] = x.mkFresh(a.Type().(*types.Pointer).Elem(), a.Comment)
+			nv := x.mkFresh(a.Type().(*types.Pointer).Elem(), a.Comment)
+			st.cellv[c] = nv
+			if a.Comment == "rangeindex" {
+				// hidden index of a range loop: starts at -1 and only increments
+				if iv, ok := nv.(Int); ok {
+					x.assume("(>= " + iv.T + " (- 1))")
+				}
+			}
 		}
 	}
 	if lp.writesHeap {
@@ -799,6 +832,41 @@ func (x *Exec) loopArrive(st *State, fr *Frame, lp *loop, head *ssa.BasicBlock, 
 		}
 	}
 	ol.snap = st.clone()
+}
+
+func fnHasRunDefers(fn *ssa.Function) bool {
+	for _, b := range fn.Blocks {
+		for _, in := range b.Instrs {
+			if _, ok := in.(*ssa.RunDefers); ok {
+				return true
+			}
+		}
+	}
+	return false
+}
+
+// atReturn checks the "at return: assert" clauses of the function under
+// verification (at the RunDefers that precedes every return).
+func (x *Exec) atReturn(st *State, fr *Frame, in ssa.Instruction) {
+	if fr.parent != nil || x.fc == nil || len(x.fc.AtReturn) == 0 {
+		return
+	}
+	for _, c := range x.fc.AtReturn {
+		env := &Env{x: x, st: st, fr: fr, pos: in.Pos(), pkg: pkgOf(fr.fn), vars: map[string]Val{}, old: x.entryEnv}
+		for n, v := range x.paramVals {
+			env.vars[n] = v
+		}
+		if !in.Pos().IsValid() {
+			env.pos = x.postEnv(st, fr, nil).pos
+		}
+		o := x.oblig(fmt.Sprintf("%s/atreturn#%d", x.curFnName, c.Ord), "at-return", x.propsFor(fr, c), fr.fn.Pos(), "at return: "+c.Text)
+		goal, err := x.evalClause(env, c)
+		if err != nil {
+			x.unbound(o, err)
+			continue
+		}
+		x.check(st, o, goal)
+	}
 }
 
 func (x *Exec) propsFor(fr *Frame, c *Clause) []string {
@@ -1045,6 +1113,7 @@ func (x *Exec) instrs(st *State, fr *Frame, b *ssa.BasicBlock, i int, prev *ssa.
 			}
 			st.defers[fr.id] = append(st.defers[fr.id], deferred{fn: fnv, args: args, call: &in.Call})
 		case *ssa.RunDefers:
+			x.atReturn(st, fr, in)
 			x.runDefers(st, fr, func(st2 *State, o Outcome) {
 				if o.Panic {
 					x.propagatePanic(st2, fr, o, k)
@@ -1070,6 +1139,9 @@ func (x *Exec) instrs(st *State, fr *Frame, b *ssa.BasicBlock, i int, prev *ssa.
 				func(s *State) { x.block(s, fr, b.Succs[1], b, k) })
 			return
 		case *ssa.Return:
+			if !fnHasRunDefers(fr.fn) {
+				x.atReturn(st, fr, in)
+			}
 			var vals []Val
 			for _, r := range in.Results {
 				vals = append(vals, x.get(fr, r))
@@ -1855,6 +1927,18 @@ func (x *Exec) doTypeAssert(st *State, fr *Frame, in *ssa.TypeAssert, b *ssa.Bas
 			fr.regs[in] = Tuple{[]Val{res, Bool{okb}}}
 			return false
 		}
+		if x.fc != nil && !x.fc.Safety {
+			// no safety obligations requested: a failing assertion is a run-time panic path
+			x.fork(st, impl,
+				func(s *State) {
+					fr.regs[in] = iv
+					x.instrs(s, fr, b, i+1, prev, k)
+				},
+				func(s *State) {
+					x.propagatePanic(s, fr, Outcome{Panic: true, PanicVal: x.runtimeErrorVal()}, k)
+				})
+			return true
+		}
 		x.safety(st, fr, in, "typeassert", impl)
 		x.assume(impl)
 		fr.regs[in] = iv
@@ -1877,11 +1961,28 @@ func (x *Exec) doTypeAssert(st *State, fr *Frame, in *ssa.TypeAssert, b *ssa.Bas
 			})
 		return true
 	}
+	if x.fc != nil && !x.fc.Safety {
+		x.fork(st, is,
+			func(s *State) {
+				x.assume(x.typeInv(val, in.AssertedType))
+				fr.regs[in] = val
+				x.instrs(s, fr, b, i+1, prev, k)
+			},
+			func(s *State) {
+				x.propagatePanic(s, fr, Outcome{Panic: true, PanicVal: x.runtimeErrorVal()}, k)
+			})
+		return true
+	}
 	x.safety(st, fr, in, "typeassert", is)
 	x.assume(is)
 	x.assume(x.typeInv(val, in.AssertedType))
 	fr.regs[in] = val
 	return false
+}
+
+// runtimeErrorVal: the value of a run-time panic (*runtime.TypeAssertionError etc.).
+func (x *Exec) runtimeErrorVal() Val {
+	return Iface{strconv.Itoa(x.eng.typeIDByName("runtime.Error")), "1"}
 }
 
 // ---------- range over map / string ----------
